@@ -320,6 +320,10 @@ func signature(c *Case, res *caseResult) uint64 {
 	return h.Sum64()
 }
 
+// properties decided by panics or by monitors on the implementation keep a case running after
+// the model was lost
+var keepGoingProps = map[string]bool{"C01": true, "C02": true, "C10": true, "C15": true}
+
 type worker struct {
 	d *driver
 }
@@ -456,7 +460,7 @@ func main() {
 					_ = os.WriteFile(marker, []byte(cases[idx].String()), 0o644)
 				}
 				atomic.StoreInt64(&started[w], time.Now().UnixNano())
-				results[idx] = runCase(&cases[idx], d, runOpts{probeLock: *prop == "C15"})
+				results[idx] = runCase(&cases[idx], d, runOpts{probeLock: *prop == "C15", keepGoing: keepGoingProps[*prop]})
 				atomic.StoreInt64(&started[w], 0)
 				if marker != "" {
 					_ = os.Remove(marker)
@@ -574,7 +578,7 @@ func main() {
 				break
 			}
 			small := shrinkCase(v.Case, *prop, v.Finding, d, known)
-			res := runCase(&small, d, runOpts{probeLock: *prop == "C15"})
+			res := runCase(&small, d, runOpts{probeLock: *prop == "C15", keepGoing: keepGoingProps[*prop]})
 			fnd := v.Finding
 			for _, f := range res.Findings {
 				if owns(*prop, f) {
@@ -680,7 +684,7 @@ func runReplay(path, prop, drvPath, widths string, known []knownFinding) int {
 		return 2
 	}
 	defer d.close()
-	res := runCase(&rep.Case, d, runOpts{probeLock: prop == "C15"})
+	res := runCase(&rep.Case, d, runOpts{probeLock: prop == "C15", keepGoing: keepGoingProps[prop]})
 	exit := 0
 	for _, f := range res.Findings {
 		mark := " "
